@@ -48,7 +48,7 @@ func c14cli(c *h.Ctx) {
 			tasks.Set(name, gen.OM{{K: "context", V: cx}, {K: "command", V: []interface{}{cmd}}})
 		}
 		// targets
-		kind := []string{"task", "pipeline", "two-tasks", "task+pipeline"}[r.Intn(4)]
+		kind := []string{"task", "pipeline", "two-tasks", "task+pipeline", "nested"}[r.Intn(5)]
 		fail := r.Chance(50)
 		var argv []string
 		pipes := gen.OM{}
@@ -79,6 +79,17 @@ func c14cli(c *h.Ctx) {
 				ran("t0", cx1, false)
 				argv = []string{"t0", "pp"}
 			}
+		case "nested":
+			// outer pipeline: included pipeline first, then a stage of the same context
+			mk("n0", cx0, false)
+			mk("n1", cx1, false)
+			mk("late", cx0, fail)
+			ran("n0", cx0, false)
+			ran("n1", cx1, false)
+			ran("late", cx0, fail)
+			pipes.Set("inner", []interface{}{gen.OM{{K: "task", V: "n0"}}, gen.OM{{K: "task", V: "n1"}, {K: "depends_on", V: []interface{}{"n0"}}}})
+			pipes.Set("outer", []interface{}{gen.OM{{K: "name", V: "inc"}, {K: "pipeline", V: "inner"}}, gen.OM{{K: "task", V: "late"}, {K: "depends_on", V: []interface{}{"inc"}}}})
+			argv = []string{"outer"}
 		case "two-tasks":
 			mk("t0", cx0, false)
 			mk("t1", cx1, fail)
